@@ -47,6 +47,8 @@ RULE = ('cases are (a) (code, Pauli error E) for every E of weight 1..d-1 of eve
         'set is non-empty), (d) (backend, K, n, operator sequences, state content) for knill_laflamme_inner_product on random '
         'complex states/operators (non-trivial: at least one operator sequence is non-empty), (e) (listed string, notation, '
         'output form) for the parser (non-trivial: a non-identity letter), (f) (code words digest) for the enumerators; '
+        '(g) (order name, position, code, code generated just before) for the generation histories of the sequence shard: several '
+        'shipped codes generated one after the other in ONE process (non-trivial: another generation preceded it); '
         'distinct by digest of those tuples')
 EXHAUSTIVE = {'quick': True, 'thorough': True}
 EXHAUSTIVE_DOMAINS = {
@@ -94,7 +96,8 @@ P_KL = 'reference/knill-laflamme-every-error'
 P_STAB = 'reference/stabilizer-circuit==listed-pauli'
 P_FIX = 'reference/listed-pauli-fixes-codeword'
 P_TORCH = 'relation/kl-inner-product-torch==numpy'
-DECIDING = [P_PARSE, P_GEN, P_NP, P_CHK, P_KLIP, P_EL, P_AS, P_QWE, P_KL, P_STAB, P_FIX, P_TORCH]
+P_HIST = 'history/code-regenerated-in-same-process'
+DECIDING = [P_PARSE, P_GEN, P_NP, P_CHK, P_KLIP, P_EL, P_AS, P_QWE, P_KL, P_STAB, P_FIX, P_TORCH, P_HIST]
 
 TOL = 1e-9
 TOL_CIRCUIT = 1e-12
@@ -105,11 +108,14 @@ ZW_THOROUGH = [0.25, 0.5, 0.75, 1, 1.5, 2, 2.5, 3, 4]
 def shards(tier, seed):
     ret = [{'name': f'code-{t}', 'code': t} for t in QUICK_CODES]
     if tier == 'quick':
-        ret += [{'name': 'errorsets', 'part': 0, 'nparts': 1}, {'name': 'klip', 'reps': 40}, {'name': 'parser'}]
+        ret += [{'name': 'errorsets', 'part': 0, 'nparts': 1}, {'name': 'klip', 'reps': 40}, {'name': 'parser'}, {'name': 'sequence'}]
     else:
         ret += [{'name': 'code-11_2_5', 'code': '11_2_5'}, {'name': 'enum-883', 'code': '883'}, {'name': 'enum-8_64_2', 'code': '8_64_2'}]
         ret += [{'name': f'errorsets-{i}', 'part': i, 'nparts': 3} for i in range(3)]
-        ret += [{'name': 'klip', 'reps': 400}, {'name': 'parser'}, {'name': 'repo-tests'}]
+        ret += [{'name': 'klip', 'reps': 400}, {'name': 'parser'}, {'name': 'repo-tests'}, {'name': 'sequence'}]
+    # longest shards first (matters only when fewer workers than shards)
+    first = ['enum-8_64_2', 'code-11_2_5', 'enum-883', 'parser', 'repo-tests', 'sequence', 'code-10_4_4']
+    ret.sort(key=lambda sh: first.index(sh['name']) if sh['name'] in first else len(first))
     return ret
 
 
@@ -209,6 +215,9 @@ class Mon:
         self.keep = []          # keeps recorded objects alive (ids stay unique)
         self.enum_ref_max_n = 6 if ctx.tier == 'quick' else 8
         self.sampled = set()
+        self.circuits_ok = set()  # (listed letters, gate program) pairs whose full unitary was compared and passed
+        self.generations = []   # history of generate_code_np calls on shipped encoders in this process: (tag, verdict)
+        self.first_words = {}   # tag -> code words of the first orthonormal generation in this process
         ctx.extra.setdefault('codes', {})
         ctx.extra.setdefault('worst', {})
 
@@ -224,6 +233,26 @@ class Mon:
         gl = getattr(circ, 'gate_index_list', None)
         if not ctx.check(gl is not None and hasattr(circ, 'to_unitary'), 'stabilizer/not-a-circuit',
                          'parse_simple_pauli(tag_circuit=True) did not return a circuit', {'listed': text, 'got': repr(circ)[:100]}):
+            return
+        try:
+            sig = (letters, tuple((getattr(g, 'kind', None), repr(i), np.asarray(g.array).tobytes()) for g, i in gl))
+        except Exception:
+            sig = None
+        if sig is not None and sig in self.circuits_ok and len(gl) > 0:
+            # this very gate program was already compared entry by entry with this listed string in this process (and passed):
+            # later copies are judged on one random state (linear map, so equality on a random vector decides with probability 1)
+            psi = self.ctx.rng.normal(size=2**n) + 1j * self.ctx.rng.normal(size=2**n)
+            try:
+                got = np.asarray(circ.apply_state(psi.copy()))
+            except Exception as e:
+                ctx.check(False, 'stabilizer/circuit-apply_state-raises', f'apply_state of a stabilizer circuit raised {type(e).__name__}',
+                          {'listed': text, 'gates': gates_desc(circ), 'exception': repr(e)[:200]}, point=P_STAB)
+                return
+            want = rq.apply_pauli(psi, letters)
+            dev = float(np.abs(got - want).max()) if got.shape == want.shape else float('inf')
+            ctx.check(dev <= 1e-12 * 8, 'stabilizer/circuit-not-listed-pauli',
+                      'stabilizer circuit applied to a random state differs from the listed Pauli applied by the reference',
+                      {'listed': text, 'gates': gates_desc(circ), 'max_abs_dev': dev, 'mode': 'repeat of an already judged gate program'}, point=P_STAB)
             return
         if len(gl) == 0:
             u = np.eye(1, dtype=np.complex128)  # the empty circuit acts as the identity
@@ -250,6 +279,8 @@ class Mon:
             if ok_dense != ok:
                 raise RuntimeError(f'reference inconsistency for {text!r}: signed-permutation test {ok}, dense test {ok_dense}')
         self.worst('circuit_vs_listed_pauli', dev if ok else 0.0)
+        if ok and sig is not None:
+            self.circuits_ok.add(sig)
         ctx.check(ok, 'stabilizer/circuit-not-listed-pauli',
                   'unitary of the stabilizer circuit (padded with identities) differs from the Kronecker product of the listed letters',
                   lambda: {'listed': text, 'letters': letters, 'gates': gates_desc(circ), 'max_abs_dev_on_circuit_qubits': dev,
@@ -345,13 +376,32 @@ class Mon:
         if not ctx.check(out.shape == (k, 2**n), 'codewords/shape', 'generate_code_np must return K vectors of length 2^n',
                          {'code': label, 'shape': list(out.shape), 'K': k, 'n': n}):
             return
-        orth = ctx.close(rq.gram(out), np.eye(k), TOL, 'codewords/not-orthonormal', 'code words are not orthonormal', {'code': label})
+        shipped = rec is not None and k == rec['K'] and n == rec['n']
+        # history: which shipped codes were generated earlier in this process, and was this one fine then?
+        before = [t for t, _ in self.generations]
+        fine_before = shipped and label in self.first_words
+        suffix = '/' + label + ('/after-other-code' if fine_before and any(t != label for t in before) else '')
+        hist = {'code': label, 'generated_before_in_this_process': before[-12:], 'same_code_was_orthonormal_earlier': bool(fine_before)}
+        gram_dev = float(np.abs(rq.gram(out) - np.eye(k)).max())
+        self.worst('gram_minus_identity', gram_dev if np.isfinite(gram_dev) and gram_dev <= TOL else 0.0)
+        orth = ctx.check(np.isfinite(gram_dev) and gram_dev <= TOL, 'codewords/not-orthonormal' + suffix, 'code words are not orthonormal',
+                         lambda: {**hist, 'max_abs_gram_minus_identity': gram_dev, 'gram_diagonal': np.diagonal(rq.gram(out))[:8]})
         basis = np.zeros((k, 2**n), dtype=np.complex128)
         basis[np.arange(k), np.arange(k)] = 1
-        ctx.close(out, rq.run_gate_list(gates, n, basis), TOL, 'codewords/not-encoder-image',
-                  'code words differ from the reference simulation of the encoding circuit on |i>', {'code': label})
-        if rec is not None and k == rec['K'] and n == rec['n'] and orth:
-            self.judge_code(rec, out)
+        ctx.close(out, rq.run_gate_list(gates, n, basis), TOL, 'codewords/not-encoder-image' + suffix,
+                  'code words differ from the reference simulation of the encoding circuit on |i>', hist)
+        if shipped:
+            if fine_before:
+                first = self.first_words[label]
+                ctx.check(first.shape == out.shape and float(np.abs(first - out).max()) <= 1e-12, 'codewords/differ-from-earlier-generation/' + label,
+                          'the same shipped code generated again in the same process gives different code words',
+                          lambda: {**hist, 'max_abs_diff': float(np.abs(first - out).max()) if first.shape == out.shape else None}, point=P_HIST)
+            elif orth:
+                self.first_words[label] = out.copy()
+            self.generations.append((label, 'ok' if orth else 'not-orthonormal'))
+            ctx.extra['generation_history'] = [f'{t}:{v}' for t, v in self.generations][-150:]
+            if orth:
+                self.judge_code(rec, out)
 
     def judge_code(self, rec, code):
         ctx = self.ctx
@@ -833,6 +883,42 @@ def run_parser(ctx, numqi):
                 'checked': 'to_unitary() of the returned circuit, padded with identities, == Kronecker product of the letters (phase included)'})
 
 
+def run_sequence(ctx, numqi, mon):
+    """histories: several shipped codes generated one after the other in ONE process through the public API. Every generation is
+    judged by the generate_code_np postcondition (orthonormal, == encoder image, == earlier generation of the same code; stabilizers
+    and Knill-Laflamme for every error below the distance whenever the code words are not bit-identical to ones already judged)."""
+    qec = numqi.qec
+    codes = list(QUICK_CODES) + (['11_2_5'] if ctx.tier == 'thorough' else [])
+    perm = [codes[i] for i in ctx.rng.permutation(len(codes))]
+    small = [t for t in codes if CODES[t]['n'] <= 8]
+    orders = [('listed', codes), ('reverse', codes[::-1]),
+              ('equal-n K-down 4', ['442', '422']), ('equal-n K-up 4', ['422', '442']),
+              ('equal-n K-down 8', ['8_64_2', '883']), ('equal-n K-up 8', ['883', '8_64_2']),
+              ('twice', ['523', '523', '642', '642', '8_64_2', '8_64_2']),
+              ('interleaved', ['442', '523', '422', '8_64_2', '642', '883', '442', '422']),
+              ('seeded permutation', perm),
+              ('seeded permutation of the <=8 qubit codes, reversed K order', sorted(small, key=lambda t: (CODES[t]['n'], -CODES[t]['K'])))]
+    ctx.workload('realistic')
+    prev = None
+    for oname, order in orders:
+        for pos, tag in enumerate(order):
+            spec = CODES[tag]
+            ctx.set_case({'op': 'sequence', 'order': oname, 'position': pos, 'code': tag, 'generated_just_before': prev})
+            ctx.case('sequence', oname, pos, tag, prev, nontrivial=prev is not None)
+            with ctx.guard('sequence/' + tag):
+                desc = getattr(qec, spec['fn'])()
+                code = qec.generate_code_np(desc['encode'], desc['num_logical_dim'])
+                qec.check_stabilizer(desc['stabilizer'], code)
+                if pos == len(order) - 1 and spec['K'] >= 4:
+                    # a sub-code of the same encoder (fewer logical states) and then the full code again
+                    qec.generate_code_np(desc['encode'], spec['K'] // 2)
+                    qec.generate_code_np(desc['encode'], desc['num_logical_dim'])
+            prev = tag
+    ctx.extra['orders'] = {o: l for o, l in orders}
+    ctx.sample({'op': 'sequence', 'orders': {o: l for o, l in orders[:7]},
+                'note': 'all generations happen in one process; each is judged by the generate_code_np postcondition'})
+
+
 def run_repo_tests(ctx, numqi):
     ctx.workload('repo-tests')
     path = os.path.join(os.path.dirname(os.path.realpath(os.environ.get('NUMQI_SRC', '/repo/python'))), 'tests', 'test_qec.py')
@@ -873,5 +959,7 @@ def run(ctx, shard):
         run_parser(ctx, numqi)
     elif name == 'repo-tests':
         run_repo_tests(ctx, numqi)
+    elif name == 'sequence':
+        run_sequence(ctx, numqi, mon)
     else:
         raise ValueError(f'unknown shard {name}')
